@@ -1414,7 +1414,8 @@ def _transpose_harness(prop, ds):
     return Harness(hn, harness_fn(hn, b, unwind=TMAX + 2), prog, note="transposing joiner, profile %s" % (ds,))
 
 
-FAMILIES["C12"] = [fam_let, lambda p, t: _let_loose_harnesses(p)]
+# + both operands of fold / try_fold as blocks: the captures that read names are block operands, every one of them must be defined
+FAMILIES["C12"] = [fam_let, lambda p, t: _let_loose_harnesses(p), lambda p, t: [h for h in _capture_special(p) if "fold2" in h.name]]
 FAMILIES["C13"] = [fam_handler, lambda p, t: _async_lazy_harnesses(p)]
 FAMILIES["C09"] = [fam_async, lambda p, t: _async_lazy_harnesses(p)]
 FAMILIES["C16"] = [fam_options]
